@@ -44,6 +44,20 @@ impl WalRecuperator {
         Ok(())
     }
 
+    /// Whether the catalog knows the relation an operation of an unfinished transaction refers to.
+    fn relation_exists(&self, object_id: Option<crate::types::ObjectId>) -> bool {
+        let Some(object_id) = object_id else {
+            return true;
+        };
+        let builder = self.dml_executor.ctx().tree_builder();
+        let snapshot = self.dml_executor.ctx().snapshot();
+        self.dml_executor
+            .ctx()
+            .catalog()
+            .get_relation(object_id, &builder, &snapshot)
+            .is_ok()
+    }
+
     /// Run all the undo.
     pub(crate) fn run_undo(&mut self, analysis: &AnalysisResult) -> RuntimeResult<()> {
         for redo_transaction in analysis.needs_undo.iter() {
@@ -57,15 +71,25 @@ impl WalRecuperator {
                 ))?
                 .rev()
             {
+                // Only winners are redone, so the work of an unfinished transaction is in the file only if its pages
+                // happened to be written before the crash. Rows of a table that the same transaction created and that
+                // never reached the file have nothing to take back (looking the table up used to fail the whole
+                // recovery: the database no longer opened).
                 if let Some(delete_operation) = analysis.delete_ops.get(&lsn) {
-                    self.undo_delete(delete_operation, *redo_transaction)?;
+                    if self.relation_exists(delete_operation.object_id()) {
+                        self.undo_delete(delete_operation, *redo_transaction)?;
+                    }
                 }
                 if let Some(update_operation) = analysis.update_ops.get(&lsn) {
-                    self.undo_update(update_operation)?;
+                    if self.relation_exists(update_operation.object_id()) {
+                        self.undo_update(update_operation)?;
+                    }
                 }
 
                 if let Some(insert_operation) = analysis.insert_ops.get(&lsn) {
-                    self.undo_insert(insert_operation)?;
+                    if self.relation_exists(insert_operation.object_id()) {
+                        self.undo_insert(insert_operation)?;
+                    }
                 }
 
                 if let Some(create_operation) = analysis.create_ops.get(&lsn) {
@@ -169,15 +193,17 @@ impl WalRecuperator {
         }
 
         // Determine if it's a table or index and execute the inverse
+        // if_exists: the CREATE of an unfinished transaction is not redone, so the object is there only if its
+        // catalog pages were written before the crash
         if let Ok(create_table_instr) = CreateTableInstr::from_bytes(redo_bytes) {
-            let drop_instr = create_table_instr.inverse(object_id);
+            let drop_instr = DropTableInstr::new(create_table_instr.table_name, object_id, true, true);
             let instr = DdlInstruction::DropTable(drop_instr);
             self.ddl_executor.execute_instruction(&instr)?;
             return Ok(());
         }
 
         if let Ok(create_index_instr) = CreateIndexInstr::from_bytes(redo_bytes) {
-            let drop_instr = create_index_instr.inverse(object_id);
+            let drop_instr = DropIndexInstr::new(create_index_instr.index_name, object_id, true);
             let instr = DdlInstruction::DropIndex(drop_instr);
             self.ddl_executor.execute_instruction(&instr)?;
         }
